@@ -7,7 +7,8 @@ use trusttunnel::verif::socks::{self, Auth, Dest, Outcome};
 ///      auth_kind 0 none | 1 user/password (a = user, b = password) | 2 extended (a = [type, len_hi, len_lo, value...]*)
 ///      dest_kind 4 | 6 (dest = address bytes) | 3 (dest = domain name bytes)
 ///      seg... = the server's bytes, delivered segment by segment, then end of stream
-/// out: [outcome, reply] client-bytes     outcome 0 tcp | 1 failure(reply) | 2 io | 3 protocol | 4 authentication
+/// out: [outcome, reply] client-bytes leftover    (leftover = on success, the bytes the returned stream yields next: what the
+///      forwarder would relay to the VPN client as the first bytes from the target)     outcome 0 tcp | 1 failure(reply) | 2 io | 3 protocol | 4 authentication
 pub fn connect(toks: Vec<Tok>) -> Vec<Tok> {
     let h = toks[0].clone();
     let a = bytes(&toks[1]);
@@ -63,8 +64,12 @@ pub fn connect(toks: Vec<Tok>) -> Vec<Tok> {
             }
             got
         });
-        let outcome = socks::connect(client_io, auth, dest, port).await;
+        let (outcome, io) = socks::connect_io(client_io, auth, dest, port).await;
         let _ = writer.await;
+        let mut leftover = vec![];
+        if let Some(mut io) = io {
+            let _ = tokio::time::timeout(std::time::Duration::from_secs(2), io.read_to_end(&mut leftover)).await;
+        }
         // the client stream is dropped inside connect() unless it succeeded; on success it was
         // returned and dropped by the door, so the reader sees end of stream either way
         let got = reader.await.unwrap_or_default();
@@ -75,7 +80,7 @@ pub fn connect(toks: Vec<Tok>) -> Vec<Tok> {
             Outcome::Protocol => (3, 0),
             Outcome::Authentication => (4, 0),
         };
-        vec![vec![o, r], tok(&got)]
+        vec![vec![o, r], tok(&got), tok(&leftover)]
     })
 }
 
